@@ -45,6 +45,8 @@ Call(v, b, a) == [k |-> "call", v |-> v, b |-> b, a |-> a]
 (* a function item that ESCAPES the scope of its definition and is called where a captured name is re-bound:   *)
 (*   let $f := function() { b } return (let $v := s return $f())          - the body sees the DEFINITION env   *)
 Clos(v, b, s) == [k |-> "clos", v |-> v, b |-> b, s |-> s]
+(*   for $x in s, $y in (range reading $w), $w in t return b : the range of $y is outside the scope of the LATER $w    *)
+For3(v, s, w, r, u, t, b) == [k |-> "for3", v |-> v, s |-> s, w |-> w, r |-> r, u |-> u, t |-> t, b |-> b]
 (*   (for $v in s return function() { b }) ! .()   - one closure per iteration, all called after the loop      *)
 ForClos(v, s, b) == [k |-> "forclos", v |-> v, s |-> s, b |-> b]
 
@@ -76,6 +78,9 @@ Eval(x, env) ==
     [] x.k = "for2" -> \* for $v in s, $w in t return b  ==  for $v in s return (for $w in t return b)
                        LET s == Eval(x.s, env) IN
                          IF s = ERR THEN ERR ELSE FlatMap(For(x.w, x.t, x.b), env, x.v, s)
+    [] x.k = "for3" -> \* = for $v in s return (for $w in r return (for $u in t return b))
+                       LET s == Eval(x.s, env) IN
+                         IF s = ERR THEN ERR ELSE FlatMap(For(x.w, x.r, For(x.u, x.t, x.b)), env, x.v, s)
     [] x.k = "let"  -> LET s == Eval(x.s, env) IN
                          IF s = ERR THEN ERR ELSE Eval(x.b, [env EXCEPT ![x.v] = s])
     [] x.k = "some" -> LET s == Eval(x.s, env) IN
@@ -118,6 +123,9 @@ WrapFor2(s, t)   == Set(For2("x", s, "y", t, e))
 WrapFor2Dep      == Set(For2("x", Cat(Lit(1), Lit(2)), "y", Cat(Var("x"), Lit(7)), e))   \* inner range depends on outer variable
 WrapLet(v, s)    == Set(Let(v, s, e))
 WrapCall(v, a)   == Set(Call(v, e, a))
+Other(u) == IF u = "x" THEN "y" ELSE "x"
+(* for $o in (1, 2), $o in ($u), $u in (7, 8) return e  (o the other name): the middle range reads the OUTER $u on every tuple *)
+WrapFor3(u) == Set(For3(Other(u), Cat(Lit(1), Lit(2)), Other(u), Var(u), u, Cat(Lit(7), Lit(8)), e))
 WrapClos(v, s)   == Set(Clos(v, e, s))
 WrapForClos(v, s) == Set(ForClos(v, s, e))
 (* e becomes the RANGE / value expression of a binder whose body reads a variable *)
@@ -134,6 +142,7 @@ Next == \/ \E v \in Vars, s \in Sources : WrapFor(v, s)
         \/ WrapFor2Dep
         \/ \E v \in Vars, s \in Sources : WrapLet(v, s)
         \/ \E v \in Vars, a \in Leaves : WrapCall(v, a)
+        \/ \E u \in Vars : WrapFor3(u)
         \/ \E v \in Vars, s \in {Lit(7), Cat(Lit(1), Lit(2))} : WrapClos(v, s)
         \/ \E v \in Vars, s \in {Cat(Lit(1), Lit(2)), Var("y")} : WrapForClos(v, s)
         \/ \E v \in Vars, b \in {Var("x"), Var("y"), Add(Var("x"), Var("y"))} : AsRange(v, b)
